@@ -346,16 +346,17 @@ type patCase struct {
 	Hosts    []string `json:"hosts"`
 }
 
-func runPattern(t *testing.T, c patCase) error {
+func runPattern(t *testing.T, c patCase) (retErr error) {
 	sc := scenario{Allowed: c.Allowed, Presumed: c.Presumed, Events: []event{
 		{At: 0, Kind: "poll", Sid: "p", NAT: strp("unrestricted"), Type: "standalone", Pattern: c.Pattern, Door: c.Door, AnsMode: "prompt"},
 		{At: sec, Kind: "http", Method: "GET", Path: "/debug"},
 		{At: 2 * sec, Kind: "client", Offer: "{\"o\":1}", NAT: strp("restricted"), Door: "ipc"},
 	}}
-	ctx, err := newContext(&sc, &bytes.Buffer{})
+	ctx, err := cachedContext(&sc)
 	if err != nil {
 		return err
 	}
+	defer dropIfErr(&sc, &retErr)
 	h := runScenario(t, ctx, &sc, nil)
 	if err := checkBounded(h); err != nil {
 		return err
@@ -434,4 +435,10 @@ func TestVerifC06BrokerReject(t *testing.T) {
 		vstat.Run(uPat, t, rt, c, nt, labels, runPattern)
 	})
 	uPat.JournalDone()
+}
+
+func dropIfErr(sc *scenario, err *error) {
+	if *err != nil {
+		dropContext(sc)
+	}
 }
